@@ -180,3 +180,31 @@ def run_correlated_random(h, n):
     if h.mode == "sym":
         ch = [e for e in h.rng_log() if e["fn"].endswith("choice")]
         h.check("random correlated sample: one weighted draw over the four joint outcomes", len(ch) == 1 and ch[0]["args"]["a"] == 4 and ch[0]["args"]["p"] == "given")
+
+
+def regressions(h):
+    """auxiliary concrete sweep (float64): non-random correlated samples over a grid of valid parameters have shape (2,n),
+    0/1 entries and marginals within three draws; non-random Bernoulli samples have floor(n*p) ones."""
+    np = h.np
+    ex = h.sa.experimental
+    rng = np.random.RandomState(11)
+    bad = []
+    for _ in range(400):
+        p1, p2, rho, n = float(rng.uniform(0.05, 0.95)), float(rng.uniform(0.05, 0.95)), float(rng.uniform(-0.5, 0.5)), int(rng.randint(1, 200))
+        try:
+            d = ex.CorrelatedBernoullilDataset(p1=round(p1, 2), p2=round(p2, 2), rho=round(rho, 2), n=n).sample(random=False, rng=np.random.default_rng(1))
+        except ValueError as e:
+            if "negative probabilities" in str(e):
+                continue
+            bad.append((p1, p2, rho, n, str(e)))
+            continue
+        if d.shape != (2, n) or not np.isin(d, (0, 1)).all() or abs(d[0].sum() - n * round(p1, 2)) > 3 or abs(d[1].sum() - n * round(p2, 2)) > 3:
+            bad.append((p1, p2, rho, n))
+    h.check("[float sweep] correlated non-random samples well-formed on 400 parameter sets", not bad)
+    badb = []
+    for n in range(1, 60):
+        for p in (0.0, 0.1, 0.25, 1 / 3, 0.5, 0.7, 0.9, 1.0):
+            d = ex.BernoulliDataset(p=p).sample(n, random=False, rng=np.random.default_rng(2))
+            if len(d) != n or d.sum() != np.floor(n * p):
+                badb.append((n, p))
+    h.check("[float sweep] non-random Bernoulli: floor(n*p) ones", not badb)
